@@ -107,7 +107,10 @@ func (c26) NewRun(plan *simrt.Source, job *harn.Job) harn.Run {
 			}
 		case 1:
 			fp.Kind = "formatted"
-			if ext == ".go" {
+			if ext == ".go" && plan.Chance(500) {
+				// stable under every style, --smart included
+				fp.Src = fmt.Sprintf("package foo\n\nfunc Add%d(a, b int) int {\n\treturn a + b\n}\n", nonce)
+			} else if ext == ".go" {
 				fp.Src = fmt.Sprintf(formattedGo, nonce)
 			} else if ext == ".gox" {
 				fp.Src = fmt.Sprintf("func Foo() {\n\tprintln %d\n}\n", nonce)
@@ -169,8 +172,13 @@ func (c26) NewRun(plan *simrt.Source, job *harn.Job) harn.Run {
 	}
 	if r.mvgo && plan.Chance(400) {
 		// -mvgo puts its result at <stem>.xgo: sometimes that name is taken
-		for _, f := range r.files {
+		for fi, f := range r.files {
 			if strings.HasSuffix(f.Rel, ".go") && !f.Link {
+				if plan.Chance(500) {
+					// the .go file is already in XGo style: nothing to rewrite, only to move
+					r.files[fi].Kind = "formatted"
+					r.files[fi].Src = fmt.Sprintf("package foo\n\nfunc Add%d(a, b int) int {\n\treturn a + b\n}\n", 600+fi)
+				}
 				np := strings.TrimSuffix(f.Rel, ".go") + ".xgo"
 				taken := false
 				for _, g := range r.files {
